@@ -249,7 +249,7 @@ func TestVerifC13Faults(t *testing.T) {
 			return fs
 		})
 
-	hpKinds := append([]string{kOK}, fetchFaults...)
+	hpKinds := append(append([]string{kOK}, fetchFaults...), kOverlongLine)
 	vrt.Part(r, "hashprefix",
 		func(emit func(hpCase)) {
 			vrt.Sequences(len(hpKinds), hpRounds, hpRounds, func(seq []int) {
@@ -373,6 +373,12 @@ func runStorageHistory(r *vrt.Run, dir string, c faultCase) (out []vrt.Finding) 
 
 	params := bubbleParams
 	params.rulesOnly = c.RulesOnly
+	for _, d := range c.Devs {
+		if d.K == kOverlongLine {
+			params.sizeFactor = overlongSizeFactor
+			w.sizeFactor = overlongSizeFactor
+		}
+	}
 	positions, lists := storagePositions, storageLists
 	if c.RulesOnly {
 		positions, lists = []string{posIdx, posL1, posL2}, []string{lstL1, lstL2}
@@ -742,7 +748,14 @@ func runHPHistory(r *vrt.Run, dir string, c hpCase) (out []vrt.Finding) {
 		w.wg.Wait()
 	}()
 
-	f, err := newHashprefix(dir, bubbleParams)
+	params := bubbleParams
+	for _, k := range c.Kinds {
+		if k == kOverlongLine {
+			params.sizeFactor = overlongSizeFactor
+			w.sizeFactor = overlongSizeFactor
+		}
+	}
+	f, err := newHashprefix(dir, params)
 	if err != nil {
 		vrt.Fatalf("building hashprefix filter: %v", err)
 	}
@@ -786,19 +799,21 @@ func runHPHistory(r *vrt.Run, dir string, c hpCase) (out []vrt.Finding) {
 		switch {
 		case !isComplete(cur) && cur != stAbsent:
 			fs.add("hashprefix/incomplete-or-mixed-version", "round %d kinds %v: serves %s", round, c.Kinds, cur)
-		case kind != kOK && cur != prev:
+		case (isFetchFault(kind) || refErr != nil) && cur != prev:
+			// A failed download, or a refresh that reports failure for any
+			// other reason (a body the consumer cannot digest).
 			fs.add("hashprefix/failed-download-changes-served-version",
-				"round %d kinds %v: serves %s, previous %s", round, c.Kinds, cur, prev)
-		case kind == kOK && !in(cur, prev, offered):
+				"round %d kinds %v: refresh error %v, serves %s, previous %s", round, c.Kinds, refErr, cur, prev)
+		case !isFetchFault(kind) && !in(cur, prev, offered):
 			fs.add("hashprefix/neither-previous-nor-offered",
 				"round %d kinds %v: serves %s, previous %s", round, c.Kinds, cur, prev)
 		}
 		switch {
 		case curFile == prevFile:
 			// Unchanged.
-		case kind == kOK && curFile == content(posHP, round):
-			// Replaced by the complete offered version.
-		case kind != kOK:
+		case !isFetchFault(kind) && curFile == delivered(posHP, round, kind):
+			// Replaced by the complete body delivered in this round.
+		case isFetchFault(kind):
 			fs.add("disk/failed-download-changed-cache-file",
 				"hashprefix round %d kinds %v: cache file was %s, is %s", round, c.Kinds, short(prevFile), short(curFile))
 		default:
@@ -815,11 +830,17 @@ func runHPHistory(r *vrt.Run, dir string, c hpCase) (out []vrt.Finding) {
 	w.mu.Lock()
 	w.down = true
 	w.mu.Unlock()
-	f2, err := newHashprefix(dir, bubbleParams)
+	f2, err := newHashprefix(dir, params)
 	if err != nil {
 		vrt.Fatalf("building restart hashprefix filter: %v", err)
 	}
-	if rerr := f2.RefreshInitial(ctx); rerr != nil {
+	if rerr := f2.RefreshInitial(ctx); rerr != nil && strings.HasSuffix(fileVersion(posHP, prevFile, versions), "("+kOverlongLine+")") {
+		// As with a broken JSON index: the cache holds the complete body as
+		// delivered, which the consumer cannot digest.  Outcome class, not
+		// judged.
+		r.Class("restart:fails-on-cached-undigestible-list")
+		fmt.Fprintf(log, "restart error (undigestible list cached)\n")
+	} else if rerr != nil {
 		fs.add("restart/cache-unusable", "hashprefix kinds %v: restart with the network down fails: %v", c.Kinds, rerr)
 	} else if st, _ := servedState(ctx, hpProbe{f2}, lstHP, versions); !isComplete(st) {
 		fs.add("restart/incomplete-or-mixed-version", "hashprefix kinds %v: restarted filter serves %s", c.Kinds, st)
